@@ -212,6 +212,11 @@ def apply_prim(it, P_, sp, dest_ty):
     g = gs(it)
     k = P_.kind
     p = sp.data['off']
+    if it.env.get('lex') is not None:
+        import lexengine
+        r = lexengine.lex_prim(it, P_, sp, dest_ty)
+        if r is not NotImplemented:
+            return r
     g.prims = getattr(g, 'prims', 0) + 1
     if g.prims > MAX_PRIMITIVE_EVENTS and k in ('terminal', 'tag', 'tag_no_case', 'is_a', 'is_not', 'one_of', 'none_of', 'char', 'anychar'):
         # bound on the number of token-level events along one path (loops over separators etc.)
@@ -493,7 +498,7 @@ def install(mdl, production_names=None):
         name = ci.name
         if name in NOM_CTORS:
             arg = a[0] if a else None
-            if type(arg) is str or arg is None or isinstance(arg, AbsStr):
+            if type(arg) is str or arg is None or isinstance(arg, AbsStr) or type(arg) is Char or type(arg) is int:
                 return parser(NOM_CTORS[name], arg)
             return parser(NOM_CTORS[name], None)
         if name in NOM_COMB1:
@@ -564,6 +569,8 @@ def install(mdl, production_names=None):
     ov(r'^str_concat::concat$|^concat::<str>$|^concat$', str_concat)
 
     def is_keyword(it, ci, a, d):
+        if it.env.get('is_keyword_value') is not None:
+            return it.env['is_keyword_value']
         b = gs(it).fresh('is_kw', 'Bool')
         it.env.setdefault('kw_bools', []).append(b)
         return b
